@@ -1,9 +1,11 @@
 import Pw.C01.Driver
+import Pw.C18.Driver
 open Proto
 
 /-- all request handlers; each property contributes `CNN.handlers` -/
 def handlers : List (String × Handler) :=
   C01.handlers
+  ++ C18.handlers
 
 def dispatch (line : String) : String :=
   let (fn, args) := parseLine line
